@@ -15,6 +15,11 @@ enum { OP_PUSH = 1, OP_POP = 2 };
 static int q, nprod, per, npops;
 static mpsc_fifo_t mq;
 static spsc_fifo_t sq;
+static int recycle;
+static void* pool[8];
+static int npool;
+GHOST static void give_back(void* n) { if (npool < 8) pool[npool++] = n; }
+GHOST static void* take_back(void) { return npool ? pool[--npool] : 0; }
 static mpscr_fifo_t* rq;
 
 typedef struct { uint8_t n[2]; uint8_t v[2][6]; uint8_t relaxed; } qstate_t;
@@ -53,7 +58,9 @@ static void push_val(int prod, int val) {
     n->data = (void*)(intptr_t)val;
     mpsc_fifo_push(&mq, n);
   } else {
-    spsc_node_t* n = malloc(sizeof *n);
+    // -Drecycle=1: nodes the consumer has popped are pushed again (they still carry their old link)
+    spsc_node_t* n = recycle ? take_back() : 0;
+    if (!n) n = malloc(sizeof *n);
     n->data = (void*)(intptr_t)val;
     if (q == 1) spsc_fifo_push(&sq, n);
     else mpscr_fifo_push(rq, prod - 1, n);
@@ -69,7 +76,11 @@ static intptr_t pop_val(void) {
     if (n) { v = (intptr_t)n->data; free(n); }
   } else {
     spsc_node_t* n = q == 1 ? spsc_fifo_trypop(&sq) : mpscr_fifo_trypop(rq);
-    if (n) { v = (intptr_t)n->data; free(n); }
+    if (n) {
+      v = (intptr_t)n->data;
+      if (recycle) give_back(n);
+      else free(n);
+    }
   }
   fmc_op_end(op, v);
   return v;
@@ -112,6 +123,7 @@ int harness_main(void) {
   nprod = q == 1 ? 1 : fmc_param("prod", 2);
   per = fmc_param("per", q == 1 ? 3 : 2);
   npops = fmc_param("pops", 4);
+  recycle = fmc_param("recycle", 0);
   if (q == 0) mpsc_fifo_init(&mq);
   else if (q == 1) spsc_fifo_init(&sq);
   else rq = mpscr_fifo_create(nprod);
